@@ -610,7 +610,12 @@ func parseHrdParameters(r *bits.EBSPReader,
 
 		if !hp.SubLayerHrd[i].LowDelayHrdFlag {
 			// value shall be in the range of 0 to 31, inclusive
-			hp.SubLayerHrd[i].CpbCntMinus1 = uint8(r.ReadExpGolomb())
+			cpbCntMinus1 := r.ReadExpGolomb()
+			if cpbCntMinus1 > 31 {
+				r.SetError(fmt.Errorf("cpb_cnt_minus1 %d too big", cpbCntMinus1))
+				return hp
+			}
+			hp.SubLayerHrd[i].CpbCntMinus1 = uint8(cpbCntMinus1)
 		}
 		if hp.NalHrdParametersPresentFlag {
 			hp.SubLayerHrd[i].NalHrdParameters = parseSubLayerHrdParameters(r,
@@ -626,8 +631,8 @@ func parseHrdParameters(r *bits.EBSPReader,
 
 func parseSubLayerHrdParameters(r *bits.EBSPReader,
 	cpbCntMinus1 uint8, subPicHrdParamsPresentFlag bool) []SubLayerHrdParameters {
-	slhp := make([]SubLayerHrdParameters, cpbCntMinus1+1)
-	for i := uint8(0); i <= cpbCntMinus1; i++ {
+	slhp := make([]SubLayerHrdParameters, int(cpbCntMinus1)+1)
+	for i := 0; i <= int(cpbCntMinus1); i++ {
 		// values shall be in the range of 0 to 2^32 − 2, inclusive
 		slhp[i].BitRateValueMinus1 = uint32(r.ReadExpGolomb())
 		slhp[i].CpbSizeValueMinus1 = uint32(r.ReadExpGolomb())
